@@ -55,15 +55,21 @@ def main():
                              ["seed:" + s for s in sorted(os.listdir(os.path.join(VERIF, "seeded")))
                               if os.path.isdir(os.path.join(VERIF, "seeded", s))])
     bad = 0
+    todo = []
     for n in names:
         base = os.path.join(VERIF, "seeded", n[5:]) if n.startswith("seed:") else \
             os.path.join(VERIF, "mutants", n)
-        if not os.path.exists(os.path.join(base, "meta.json")):
-            continue
-        for (prop, exp, ok, rc, keys) in run_one(n):
-            print("%-34s %-4s expect=%-6s %s rc=%d %s" % (n, prop, exp, "OK " if ok else "FAIL",
-                                                         rc, keys if not ok or exp == "fires" else ""))
-            bad += 0 if ok else 1
+        if os.path.exists(os.path.join(base, "meta.json")):
+            todo.append(n)
+    from concurrent.futures import ThreadPoolExecutor
+    jobs = int(os.environ.get("SELFTEST_JOBS", "4"))
+    with ThreadPoolExecutor(max_workers=jobs) as ex:
+        for n, res in zip(todo, ex.map(run_one, todo)):
+            for (prop, exp, ok, rc, keys) in res:
+                print("%-34s %-4s expect=%-6s %s rc=%d %s" % (n, prop, exp, "OK " if ok else "FAIL",
+                                                             rc, keys if not ok or exp == "fires" else ""))
+                bad += 0 if ok else 1
+            sys.stdout.flush()
     print("selftest: %d failures" % bad)
     return 1 if bad else 0
 
